@@ -12,7 +12,7 @@ T = {
  "C06-1": ("C06", "stopping thread preempted between enqueueing the sentinel and raising the stop flag", [("C06 quick", "VIOLATION (deadlock: dispatcher blocks in get() after consuming the sentinel; found by the per-step deadlock queries of the portfolio)")]),
  "C06-2": ("C06", "reader thread dead (unmount) while the emitter still waits, then stop/unschedule", [("-", "real inotify emitter not covered by C06")]),
  "C07-1": ("C07", "unschedule while an event of that watch is queued (KeyError in the observer thread)", [("C05 quick", "VIOLATION (uncaught KeyError in dispatch_events after a re-entrant unschedule)"), ("C07 quick", "not caught: C07 drives the inotify pipeline, not the observer API")]),
- "C07-2": ("C07", "new directory replaced by a regular file between the reader's walk and add_watch (ENOTDIR)", [("C07 quick", "not caught: transient lookup failures are outside the C07 check")]),
+ "C07-2": ("C07", "new directory replaced by a regular file between the reader's walk and add_watch (ENOTDIR)", [("C07 quick", "VIOLATION (uncaught NotADirectoryError in the reader; session with a transient add_watch failure)")]),
  "C08-1": ("C08", "two renames in flight, consumer sleeping on the first when the reader removes it", [("C17 quick", "VIOLATION (same change as C17-1)"), ("C08 quick", "not caught: the thread sessions of C08 are too small")]),
  "C08-2": ("C08", "an unrelated event between the two halves of a rename inside one read batch", [("C08 quick", "VIOLATION (reader-alone session; replayed natively)")]),
  "C09-1": ("C09", "a name renamed away and re-occupied by a different inode with different mtime/size", [("C09 quick", "VIOLATION (modified law)")]),
@@ -35,7 +35,7 @@ T = {
  "C18-1": ("C18", "stop() arrives while the debouncer thread is inside the restart callback", [("C18 quick", "not caught: AutoRestartTrick not covered")]),
  "C18-2": ("C18", "watcher thread in poll() when an event-triggered restart kills the child", [("C18 quick", "not caught: ProcessWatcher/AutoRestartTrick not covered")]),
  "C19-1": ("C19", "str root and a valid multi-byte UTF-8 file name; look at the parent-directory event", [("C19 quick", "VIOLATION")]),
- "C19-2": ("C19", "two schedule() calls for the same directory with str and bytes on one observer", [("-", "not covered by C19 (single watch)")]),
+ "C19-2": ("C19", "two schedule() calls for the same directory with str and bytes on one observer", [("C19 quick", "VIOLATION (two handlers scheduled with str and bytes spellings)")]),
  "C20-1": ("C20", "one-character name as last record, byte count not DWORD padded", [("-", "no check built for C20")]),
  "C20-2": ("C20", "a name re-used with the same action within one read", [("-", "no check built for C20")]),
 }
